@@ -24,7 +24,9 @@ ASSUMPTIONS = ["frames are identified by xyz[i,0,0]; files have T<100 frames so 
 SPEC = 6
 # format -> (acceptable model variants: repaired first, then as-found), has_len, seekable
 FORMATS = {
-    "dcd0.dcd": ([1], True, True),   # DCD with NSET = 0 in its header (length from the file size)
+    "dcd0.dcd": ([1], True, True),
+    "xyznonl.xyz": ([1], True, True),   # .xyz whose last line has no final newline
+    "dcdfix.dcd": ([1], True, True),    # CHARMM DCD with fixed atoms (hand-written; mdtraj cannot write one)   # DCD with NSET = 0 in its header (length from the file size)
     "h5": ([0], True, True), "xtc": ([2], True, True), "trr": ([6, 5], True, True), "dcd": ([1], True, True),
     "nc": ([4, 3], True, True), "mdcrd": ([1], False, True), "xyz": ([1], True, True),
     "lammpstrj": ([1], False, True), "dtr": ([1], True, True), "arc": ([1], False, False),
@@ -136,6 +138,8 @@ def build_cases(ctx):
                 ai = None
                 if i % 4 == 3:
                     ai = sorted(rng.sample(range(4), rng.randint(1, 3)))
+                if ai is not None and fmt == "dcdfix.dcd" and 0 not in ai:
+                    ai = [0] + ai   # frames are identified through a free atom (atom 0); atoms 2, 3 are fixed
                 ops = gen_history(rng, T, L, fmt, over)
                 if ops:
                     cases.append({"fmt": fmt, "T": T, "ops": ops, "handles": 2, "atom_indices": ai,
